@@ -13,6 +13,7 @@ import (
 	"strings"
 	"time"
 
+	"github.com/ProtonMail/gluon"
 	"github.com/ProtonMail/gluon/imap"
 	"github.com/emersion/go-imap/utf7"
 
@@ -100,7 +101,10 @@ func parseList(kind, d string, r imapc.Result) ([]listed, error) {
 		if m[1] != kind {
 			return nil, fmt.Errorf("%s answered with %q", kind, u.Text)
 		}
-		del, err := strconv.Unquote(m[3])
+		del, err := "", error(nil)
+		if m[3] != "NIL" { // NIL: flat namespace
+			del, err = strconv.Unquote(m[3])
+		}
 		if err != nil || del != d {
 			return nil, fmt.Errorf("delimiter %s in %q, configured %q", m[3], u.Text, d)
 		}
@@ -501,6 +505,9 @@ func startServer(d string, users int) (*srv.Server, error) {
 	for i := 0; i < users; i++ {
 		us = append(us, srv.User{Names: []string{fmt.Sprintf("u%d", i)}, Pass: "pass"})
 	}
+	if d == "" { // srv defaults an empty Delimiter to "/": the later option wins
+		return srv.Start(srv.Options{Users: us, ExtraOptions: []gluon.Option{gluon.WithDelimiter("")}})
+	}
 	return srv.Start(srv.Options{Delimiter: d, Users: us})
 }
 
@@ -567,8 +574,9 @@ func runC14(ctx *common.Ctx) error {
 	res.Rule = "histories of CREATE/DELETE/RENAME/SUBSCRIBE/UNSUBSCRIBE from 3 sessions and connector MailboxCreated/Updated/Deleted, " +
 		"names of depth<=5 with regex metacharacters, spaces, non-ASCII (modified UTF-7), INBOX/recovery variants, leading/trailing/adjacent delimiters; " +
 		"after every step LIST \"\" * and LSUB \"\" * (whole state) and generated reference/pattern queries with % and * at every position; " +
-		"delimiters / . ] ^ | \\ ; non-trivial = distinct wildcard queries with a non-empty expected answer, CREATEs that make parents, successful RENAMEs"
-	delims := []string{"/", ".", "]", "^", "|", `\`}
+		"delimiters / . ] ^ | \\ and the empty delimiter (flat namespace); non-trivial = distinct wildcard queries with a non-empty expected answer, CREATEs that make parents, successful RENAMEs"
+	// "" = gluon.WithDelimiter(""): flat namespace, LIST answers NIL; in cases.v it is the byte 0 (occurs in no name)
+	delims := []string{"/", ".", "]", "^", "|", "", `\`}
 	if e := os.Getenv("C14_DELIMS"); e != "" { // debugging aid: restrict the delimiters
 		delims = strings.Fields(e)
 	}
@@ -614,12 +622,12 @@ func runC14(ctx *common.Ctx) error {
 				got, ok, mgot, mok, goMatchRegex(ref, pat, d)), nil)
 			continue
 		}
-		want := rfcMatch(d[0], canonFirst(d, ref+pat), cand)
+		want := rfcMatch(delimByte(d), canonFirst(d, ref+pat), cand)
 		if want && !(ok && got == cand) {
 			res.Fail(canon, fmt.Sprintf("RFC matching selects the name, the expression %s gives (%q,%v)", goMatchRegex(ref, pat, d), got, ok), nil)
 			continue
 		}
-		if ok && !rfcMatch(d[0], canonFirst(d, ref+pat), got) {
+		if ok && !rfcMatch(delimByte(d), canonFirst(d, ref+pat), got) {
 			res.Fail(canon, fmt.Sprintf("the expression %s matches %q which RFC matching does not select", goMatchRegex(ref, pat, d), got), nil)
 			continue
 		}
@@ -636,7 +644,7 @@ func runC14(ctx *common.Ctx) error {
 			if ok {
 				obs = "(Some " + coqName(got) + ")"
 			}
-			lines = append(lines, fmt.Sprintf("CMatch %d %d %s %s %s %s", caseID, d[0], coqName(ref), coqName(pat), coqName(cand), obs))
+			lines = append(lines, fmt.Sprintf("CMatch %d %d %s %s %s %s", caseID, delimByte(d), coqName(ref), coqName(pat), coqName(cand), obs))
 		}
 	}
 
@@ -706,7 +714,7 @@ func runC14(ctx *common.Ctx) error {
 				st = append(st, o.coq())
 			}
 			if fail == nil {
-				lines = append(lines, fmt.Sprintf("CHist %d %d [%s]", caseID, d[0], strings.Join(st, ";\n    ")))
+				lines = append(lines, fmt.Sprintf("CHist %d %d [%s]", caseID, delimByte(d), strings.Join(st, ";\n    ")))
 			}
 			if len(res.Samples) < 6 && len(r.ops) > 6 {
 				res.Sample(map[string]interface{}{"delimiter": d, "first_steps": opsStrings(r.ops[:6])})
